@@ -124,8 +124,10 @@ grammar = r"""
 
     term_pair: CNAME ":" term
 
+    tvar_pair: "'" CNAME ":" type
+
     inst: "{}"
-        | "{" term_pair ("," term_pair)* "}"
+        | "{" (term_pair | tvar_pair) ("," (term_pair | tvar_pair))* "}"
 
     type_pair: CNAME ":" type
 
@@ -376,6 +378,10 @@ class HOLTransformer(Transformer):
     def type_pair(self, name, T):
         return (str(name), T)
 
+    def tvar_pair(self, name, T):
+        # Type instantiation inside a term instantiation, written 'a: T
+        return ("'" + str(name), T)
+
     def inst(self, *args):
         return dict(args)
 
@@ -450,9 +456,13 @@ def parse_thm(s: str) -> Thm:
 def parse_inst(s):
     """Parse a term instantiation."""
     inst = inst_parser.parse(s)
+    tyinst = dict((k[1:], T) for k, T in inst.items() if k.startswith("'"))
+    inst = dict((k, t) for k, t in inst.items() if not k.startswith("'"))
     for k in inst:
         inst[k] = infertype.type_infer(inst[k])
-    return Inst(inst)
+    res = Inst(inst)
+    res.tyinst = TyInst(tyinst)
+    return res
 
 def parse_tyinst(s):
     """Parse a type instantiation."""
